@@ -177,15 +177,21 @@ def _drop_fingerprints(target, prefix):
                     shutil.rmtree(os.path.join(fpd, d), ignore_errors=True)
 
 
-def _prune_old_facts(keep, limit=12):
+def _prune_old_facts(keep, limit=40):
     base = os.path.join(CACHE, "facts")
     try:
         ds = [d for d in os.listdir(base) if d not in (keep, "v047")]
     except FileNotFoundError:
         return
     ds.sort(key=lambda d: os.path.getmtime(os.path.join(base, d)))
+    now = time.time()
     for d in ds[:-limit] if len(ds) > limit else []:
-        shutil.rmtree(os.path.join(base, d), ignore_errors=True)
+        # never remove facts another process may just have been handed: only entries untouched for two hours
+        try:
+            if now - os.path.getmtime(os.path.join(base, d)) > 7200:
+                shutil.rmtree(os.path.join(base, d), ignore_errors=True)
+        except OSError:
+            pass
 
 
 def gen_fixture(verbose=False):
